@@ -39,11 +39,15 @@ LEVEL_TEXT = ('static analysis: (D1) copy-on-write lost-write rule over cnvlib/s
               "'-', not the previous segment's) and D3b a bin whose weight equals min_weight (kept). D3 also has filtered bins lying between two "
               'segments (they belong to neither), D3b arms whose bins are all filtered (no segment, segmenter not called), and the bins / '
               "segments pairing per chromosome is the C07-D6 rule. The HMM methods' segments are the runs of equal state within a chromosome / "
-              'arm: squash_by_groups on literal tables, unused levels and empty tables included (C14-D2 rule). (CLI) the `segment` command '
-              'line(s), through a model of argparse built from the declarations in commands.py and the real _cmd_ body interpreted with readers, '
-              'library step and writers stubbed: method, threshold, --drop-low-coverage, --drop-outliers, -p (with and without a number), '
-              '--smooth-cbs, the PAR genome and the VCF options reach do_segmentation as given. Does not decide sortedness / non-overlap / probe '
-              'sums of haar and HMM output, nor which bins the outlier filter drops.')
+              'arm: squash_by_groups on literal tables, unused levels and empty tables included (C14-D2 rule). (D4) which segmenter each declared'
+              ' method reaches is decided by interpreting _do_segmentation(<method>) on three bins of which the middle one is filtered out, the '
+              'segmenters, the R launcher and the SEG reader stubbed (the reader returning, as the R scripts do, a freshly numbered table -- one '
+              "row per surviving bin for the fused lasso, whose rows must carry their own bins' weights); an unknown method raises. (D5) the arm "
+              'tables reach the workers with every column of the bins. D3 has one-bin segments. Which bins are null coverage: drop_low_coverage '
+              'on literal tables (C15 LOW rule). (CLI) the `segment` command line(s), through a model of argparse built from the declarations in '
+              'commands.py and the real _cmd_ body interpreted with readers, library step and writers stubbed: method, threshold, --drop-low-'
+              'coverage, --drop-outliers, -p (with and without a number), --smooth-cbs, the PAR genome and the VCF options reach do_segmentation '
+              'as given. Does not decide sortedness / non-overlap / probe sums of haar and HMM output, nor which bins the outlier filter drops.')
 TECHNIQUE = "copy-on-write lost-write lint + must-flow; index-kind lint; abstract interpretation of the aggregation; registry / effect rules"
 
 TF = "cnvlib.segmentation.transfer_fields"
